@@ -139,13 +139,6 @@ theorem ircam_session_accepted (c : Ircam.Cfg) (hwf : c.wf) (q : Nat) (hq : Irca
     accepted (Small.recordOf (Small.small1Cont (Ircam.spec c) Ircam.parse (ircamGeom c) (encFor c.codec c.big)) ty stale stale' ops) = true :=
   cont_session_accepted _ _ (Small.laws_of_small1 (ircam_facts c hwf q hq hrate)) ty stale stale' ops hv trivial (fun _ _ _ => trivial)
 
-/-- the two rate hypotheses at the rates the campaigns ask for: the model's IEEE round trip of the rate IS the predicate's `roundF32`
-    (exact up to 2^24, ties-to-even above, the cap 2^31 − 128 inside the class the clause leaves open) -/
-theorem ircam_rate_clause : ∀ sr ∈ [1, 8000, 11025, 44100, 48000, 65535, 65536, 96000, 2 ^ 24, 2 ^ 24 + 1, 2 ^ 24 + 3, 2 ^ 30 - 1, 2 ^ 30, 2 ^ 30 + 1,
-      2 ^ 31 - 65, 2 ^ 31 - 64, 2 ^ 31 - 1],
-    ∃ q, Ircam.rateQ sr = some q ∧ rateOk 0x0A sr (q : Int) = true ∧ (sr < 2 ^ 31 - 64 → q = roundF32 sr) := by
-  decide +kernel
-
 /-! ## the wrapper for any `Cont` whose guard depends on the number of audio bytes only (generalises `small2_session_accepted`) -/
 
 theorem guarded_session_accepted (K : Cont) (P : Nat → Prop) (L : Laws K (guardOf (K.enc.nbytes * K.g.ch) P)) (ty : Ty) (stale stale' : Nat)
@@ -445,8 +438,5 @@ theorem voc_session_accepted (c : Voc.Cfg) (hwf : c.wf) (hrate : rateOk 0x08 c.s
   show _ + 14 < 2 ^ 24
   exact Nat.lt_of_le_of_lt (Nat.add_le_add_right h2 14) hguard
 
-/-- the PCM_U8 divisor clause at the campaign's rates (one and two channels), by evaluation -/
-theorem voc_rate_clause_u8 : ∀ sr ∈ [1, 3906, 3907, 4000, 8000, 11025, 22050, 44100, 48000, 96000, 200000, 200001, 1000000, 2 ^ 31 - 1], ∀ ch ∈ [1, 2],
-    rateOk 0x08 sr ((Voc.quant ⟨5, ch, sr⟩ : Nat) : Int) = true := by decide
 
 end Sf.C04Bridge2
